@@ -36,7 +36,11 @@ def poll(c):
     return out
 
 
-def done(c, tid, st=S.SUCCEEDED, route=0, item=None, result=None):
+def done(c, tid, st=S.SUCCEEDED, route=None, item=None, result=None):
+    if route is None:  # the route of the execution of tid that is still open
+        open_recs = [t for t in c.workflow_state.sequence
+                     if t["id"] == tid and t.get("status") not in S.COMPLETED_STATUSES]
+        route = open_recs[-1]["route"] if open_recs else 0
     if item is None:
         ev = events.ActionExecutionEvent(st, result=result)
     else:
@@ -183,3 +187,36 @@ for order in (("b", "c"), ("c", "b")):
 # D12: unassigned variables inside retry are not reported by inspection.
 r = specs.WorkflowSpec({"version": 1.0, "tasks": {"a": {"action": "core.noop", "retry": {"count": "<% ctx().nope %>"}}}}).inspect()
 print("D12 inspection of retry.count referencing an unassigned variable:", r or "accepted")
+
+# D13: get_task_sequence's BFS guard comes after the append, so only direct successors are found;
+# rerunning an upstream task leaves the old downstream terminal record flagged and its stale
+# context leaks into the output of the rerun.
+RERUN_WF = """
+version: 1.0
+vars: [{y: "none"}]
+output: [{y: <% ctx().y %>}]
+tasks:
+  a: {action: core.noop, next: [{do: [b]}]}
+  b:
+    action: core.noop
+    next:
+      - {when: "<% result() = 'first' %>", publish: [{y: "stale"}], do: [c]}
+      - {when: "<% result() != 'first' %>", do: [c]}
+  c: {action: core.noop, next: [{do: [d]}]}
+  d: {action: core.noop}
+"""
+
+
+def run_chain(c, b_result, d_status):
+    poll(c); done(c, "a"); poll(c); done(c, "b", result=b_result); poll(c); done(c, "c"); poll(c); done(c, "d", d_status)
+
+
+c = mk(RERUN_WF)
+run_chain(c, "first", S.FAILED)
+c.request_workflow_rerun([requests.TaskRerunRequest.new("a", 0)])
+run_chain(c, "second", S.SUCCEEDED)
+c.render_workflow_output()
+clean = mk(RERUN_WF)
+run_chain(clean, "second", S.SUCCEEDED)
+clean.render_workflow_output()
+print("D13 output after rerun of upstream task:", c.get_workflow_output(), "| clean run:", clean.get_workflow_output())
